@@ -26,5 +26,7 @@ Lists(maxParts, A, S, L) ==
 Far == 40 * 16
 ListsTiny == Lists(2, {1, 32}, {0, 3}, {Far + 3})
 ListsBad == Lists(2, {1, 32}, {3}, {})
+(* a fixed-address part followed, in the same segment, by a part whose alignment exceeds the page *)
+ListsLoc == Lists(2, {1, 32}, {3}, {Far + 3})
 BothRelro == {TRUE, FALSE}
 =============================================================================
